@@ -6,6 +6,7 @@ import (
 	"fmt"
 	"sort"
 	"sync"
+	"sync/atomic"
 	"time"
 )
 
@@ -202,4 +203,18 @@ func SleepChunked(d, tick time.Duration, wait func(), busy func() bool) time.Dur
 		}
 	}
 	return slept
+}
+
+// current is the world lock-grant hooks park in. Hooks installed into the system under test are
+// process-global and installed once (writing them per run would race with goroutines of a run
+// that is still winding down); they find the world of the running bubble through this pointer.
+var current atomic.Pointer[World]
+
+func SetCurrent(w *World) { current.Store(w) }
+
+// ParkLock is the body of the transport mutex hook: a lock request by the named goroutine role.
+func ParkLock(role string, free func() bool) {
+	if w := current.Load(); w != nil {
+		w.Park("lock", role, free)
+	}
 }
